@@ -107,6 +107,7 @@ NormFuel(items, ents, fuel) ==
             [] h.t = "c" -> <<(IF IsWsCp(h.c) THEN 32 ELSE h.c)>> \o rest
             [] h.t = "e" -> (IF fuel = 0 \/ ~Known(ents, h.n) THEN <<>>
                              ELSE NormFuel(ReplacementText(ents, h.n), ents, fuel - 1)) \o rest
+            [] OTHER -> rest    \* items of other kinds (XmlDoc's raw ill-formed fragments) contribute nothing
 
 \* strip leading/trailing #x20, collapse runs of #x20 (only #x20)
 RECURSIVE Collapse(_, _)
